@@ -9,7 +9,8 @@ Driver glue for C08.  One line = one whole history:
   joined by `;` (`-` = empty script).
 * `<ops>`: top-level ops joined by `;` (`-` = none).
 * ops: `L,<delay>,<script>` callLater · `X,<ref>` cancel · `R,<ref>,<secs>` reset ·
-  `D,<ref>,<secs>` delay · top level only: `A,<dt>` advance clock · `I` runUntilCurrent ·
+  `D,<ref>,<secs>` delay · in scripts only: `E,<kind>` the running call raises an exception (of
+  any class) here, the rest of its script is not executed · top level only: `A,<dt>` advance clock · `I` runUntilCurrent ·
   `T` timeout() · `G` getDelayedCalls() · `K` probe of `_cancellations`.
 
 Answer: the trace, events joined by `;`:
@@ -38,8 +39,15 @@ def decTop (s : String) : Option Top :=
   | ["K"] => some Top.counter
   | _ => (decOp s).map Top.user
 
+/-- a statement of a script: an op, or `E,<kind>` = the running call raises here -/
+def decStmt (s : String) : Option Stmt :=
+  match s.splitOn "," with
+  | ["E", k] => do pure (Stmt.raise (← k.toNat?))
+  | _ => (decOp s).map Stmt.op
+
+/-- a script is decoded as a body that may raise; the model runs what is executed of it -/
 def decScript (s : String) : Option (List Op) :=
-  if s = "-" then some [] else (s.splitOn ";").mapM decOp
+  if s = "-" then some [] else ((s.splitOn ";").mapM decStmt).map executed
 
 def decScripts (s : String) : Option (List (List Op)) :=
   if s = "~" then some [] else (s.splitOn "/").mapM decScript
